@@ -56,6 +56,7 @@ fn classify(bytes: &[u8]) -> &'static str {
 
 /// Trace and Metadata of `bytes` against the reference decoding.
 fn check_bytes(bytes: &[u8], acc: &mut Acc) -> Option<(String, String)> {
+    let _g = crate::engine::watch::bytes_guard(bytes);
     acc.evals += 1;
     acc.transitions += 1;
     let want = ref_frame(&ref_lines(bytes));
@@ -275,6 +276,7 @@ fn truncations(tier: Tier, acc_out: &mut Acc) -> Value {
             .iter()
             .map(|&enc| {
                 let b = encode_text(&text, enc);
+                let _g = crate::engine::watch::bytes_guard(&b);
                 acc.evals += 1;
                 guarded(|| rosu_map::from_bytes::<Beatmap>(&b).map(|m| format!("{m:?}")).map_err(|e| format!("{:?}", e.kind()))).and_then(|r| r)
             })
